@@ -719,6 +719,58 @@ func usable(s stackage.Stack, twin ...stackage.Stack) (msg string) {
 	return "ok"
 }
 
+// repairU returns u with the operator slot of every CONDITION row filled by a valid operator wherever it
+// holds anything else (junk, nil, a typed nil, an invalid operator).
+func repairU(u any) any {
+	us, ok := u.([]any)
+	if !ok {
+		return u
+	}
+	out := make([]any, len(us))
+	for i := range us {
+		out[i] = repairU(us[i])
+	}
+	if lab, ok := firstLabel(out); ok && strings.EqualFold(lab, "CONDITION") && len(out) >= 3 {
+		good := false
+		if op, ok := out[2].(stackage.ComparisonOperator); ok && op >= stackage.Eq && op <= stackage.Ge {
+			good = true
+		}
+		if !good {
+			out[2] = stackage.Eq
+		}
+	}
+	return out
+}
+
+func firstLabel(us []any) (string, bool) {
+	if len(us) == 0 {
+		return "", false
+	}
+	l, ok := us[0].(string)
+	return l, ok
+}
+
+func usableRepaired(rec stackage.Stack, u any, single, live bool) (msg string) {
+	defer func() {
+		if r := recover(); r != nil {
+			msg = "PANIC after Marshal (comparison with the operator-repaired twin): " + fmt.Sprint(r)
+		}
+	}()
+	var twin stackage.Stack
+	if live {
+		twin = stackage.And().Push("r0")
+	}
+	ru := repairU(u)
+	if rs, ok := ru.([]any); ok && !single {
+		_ = twin.Marshal(rs...)
+	} else {
+		_ = twin.Marshal(ru)
+	}
+	_ = rec.IsEqual(twin)
+	_ = twin.IsEqual(rec)
+	return "ok"
+}
+
 func init() {
 	evaluators["codec"] = func(in Node, arg any) any {
 		a, _ := arg.(map[string]any)
@@ -780,6 +832,11 @@ func init() {
 				_ = twin.Marshal(us2...)
 			}
 			out["total"] = usable(rec, twin)
+			if out["total"] == "ok" {
+				// a structurally matching tree whose CONDITION rows all carry a proper operator: the comparison
+				// then reaches the very field the junk row left unset (an operator on one side only)
+				out["total"] = usableRepaired(rec, BuildU(in), form == "single" || !isSeq, a["recv"] == "live")
+			}
 			out["struct"] = ProjectStruct(rec)
 		} else {
 			out["struct"] = Node{"t": "nil"}
